@@ -1,5 +1,6 @@
 import WK.Prelude.Drv
 import WK.Spec.C27
+import WK.Model.C27_Exchange
 /-
   C27 driver.  Generic ops (`rt`, `gb`): modelOut `-`, verdict from the implementation's
   flags.  Modelled ops (propose / clusternet / primitives): modelOut = the Lean model's
@@ -13,6 +14,22 @@ def optStr {α} (f : α → String) : Option α → String
 
 def fwdStr (r : Fwd) : String :=
   s!"{r.slotID} {r.hashSlot} {r.cls} {if r.want then 1 else 0} {hexEncode r.payload}"
+
+def idxStr : Option (List Nat) → String
+  | none => "nil"
+  | some [] => "-"
+  | some l => ",".intercalate (l.map toString)
+
+def xbStr (d : Bytes) : String :=
+  match decBatch d with
+  | none => "err"
+  | some b =>
+    let items := b.items.map (fun it =>
+      s!" [{it.requestID} k=2 {hexEncode it.probe.key} {hexEncode it.probe.cid} {it.probe.typ.toNat} {it.probe.leader} {it.probe.follower} {idxStr it.probe.indexes}]")
+    let re := match encBatch b with
+      | none => "err"
+      | some e => if e == d then "same" else "diff"
+    s!"ok p={b.priority.toNat}{String.join items} re={re}"
 
 def c27Step (_ : Unit) (op impl : String) : Unit × String × String :=
   let im := fields impl
@@ -105,6 +122,25 @@ def c27Step (_ : Unit) (op impl : String) : Unit × String × String :=
           | _ => "viol:unparseable-output"
         (m, vd)
       | _, _, _ => ("bad-op", "ok")
+    | ["xb", hx] =>
+      match hexDecode hx with
+      | some d =>
+        let m := xbStr d
+        -- items of another kind (replicate / fetch) are outside the model: no comparison
+        let other := (impl.splitOn " k=1]").length > 1 || (impl.splitOn " k=3]").length > 1
+        -- property on the implementation's output: an accepted frame re-encodes,
+        -- within the frame bound, with 1..256 items
+        let v :=
+          if impl == "err" then "ok"
+          else if !impl.startsWith "ok " then "viol:unparseable-output"
+          else if d.length > maxExchangeBatchBytes then "viol:alloc-unbounded:repl.batch"
+          -- (binary.Uvarint accepts padded varints, so an accepted frame need not be byte-canonical;
+          --  but what the decoder accepts its own encoder must accept too)
+          else if (impl.splitOn " re=err").length > 1 then "viol:decoder-accepts-what-encoder-refuses:repl.batch"
+          else if (impl.splitOn " [").length - 1 > maxBatchItems || (impl.splitOn " [").length < 2 then "viol:count-above-declared-max"
+          else "ok"
+        (if other then "-" else m, v)
+      | none => ("bad-op", "ok")
     | ["au", v] =>
       match v.toNat? with
       | some v => (hexEncode (putUvarint v), "ok")
